@@ -3,32 +3,78 @@
 One request per line on stdin, one reply per line on stdout, same order.
 -/
 import Driver.Json
+import Std.Data.HashMap
 open Lean
 namespace Driver
 open ReplayModel
 
-def opCodecDecode (j : Json) : Except String Json := do
+structure State where
+  types : Std.HashMap String Ty := {}
+
+def getTy (st : State) (j : Json) : Except String Ty := do
+  match j.getObjValAs? String "tyref" with
+  | .ok name =>
+    match st.types.get? name with
+    | some t => pure t
+    | none => throw s!"unknown tyref {name}"
+  | .error _ => tyOfJson (← j.getObjVal? "ty")
+
+def opTyDef (st : State) (j : Json) : Except String (State × Json) := do
+  let name ← j.getObjValAs? String "name"
   let t ← tyOfJson (← j.getObjVal? "ty")
+  pure ({ st with types := st.types.insert name t }, Json.mkObj [("ok", true)])
+
+def opCodecDecode (st : State) (j : Json) : Except String Json := do
+  let t ← getTy st j
   let h ← getNat j "h"
   let bs ← getHex j "bytes"
   match decode h t bs with
   | .ok (v, rest) => pure (Json.mkObj [("ok", valToJson v), ("used", bs.length - rest.length)])
   | .error e => pure (errJson e)
 
-def opCodecEncode (j : Json) : Except String Json := do
-  let t ← tyOfJson (← j.getObjVal? "ty")
+def opCodecDecodeSeq (st : State) (j : Json) : Except String Json := do
+  let refs ← j.getObjValAs? (Array String) "tyrefs"
+  let tys ← refs.toList.mapM fun name =>
+    match st.types.get? name with
+    | some t => pure t
+    | none => throw s!"unknown tyref {name}"
+  let h ← getNat j "h"
+  let bs ← getHex j "bytes"
+  let rec go (tys : List Ty) (cur : Bytes) (acc : Array Json) : Json :=
+    match tys with
+    | [] => Json.mkObj [("ok", Json.arr acc), ("used", bs.length - cur.length)]
+    | t :: ts =>
+      match decode h t cur with
+      | .ok (v, rest) => go ts rest (acc.push (valToJson v))
+      | .error e => Json.mkObj [("err", e.name), ("at", acc.size)]
+  pure (go tys bs #[])
+
+def opCodecEncode (st : State) (j : Json) : Except String Json := do
+  let t ← getTy st j
   let h ← getNat j "h"
   let v ← valOfJson (← j.getObjVal? "val")
   pure (Json.mkObj [("ok", toHex (encodeWire h t v)), ("hasTy", hasTy t v), ("userOK", userOK h t v),
     ("size", t.sizeInBytes)])
 
-def opCodecWrite (j : Json) : Except String Json := do
-  let t ← tyOfJson (← j.getObjVal? "ty")
+def opCodecWrite (st : State) (j : Json) : Except String Json := do
+  let t ← getTy st j
   let h ← getNat j "h"
   let v ← valOfJson (← j.getObjVal? "val")
   match writeImpl h t v with
   | .ok bs => pure (Json.mkObj [("ok", toHex bs)])
   | .error e => pure (errJson e)
+
+def opCodecWriteArgs (j : Json) : Except String Json := do
+  let tys ← (← j.getObjValAs? (Array Json) "tys").toList.mapM tyOfJson
+  let vals ← (← j.getObjValAs? (Array Json) "vals").toList.mapM valOfJson
+  let h ← getNat j "h"
+  match writeArgs h tys vals with
+  | .error e => pure (errJson e)
+  | .ok bs =>
+    match decodeArgs h tys bs with
+    | .ok (vs, rest) => pure (Json.mkObj [("ok", toHex bs), ("back", Json.arr (vs.map valToJson).toArray),
+        ("left", rest.length)])
+    | .error e => pure (Json.mkObj [("ok", toHex bs), ("backErr", e.name)])
 
 def opBitsReq (j : Json) : Except String Json := do
   let n ← getNat j "n"
@@ -55,40 +101,47 @@ def opBitsRead (j : Json) : Except String Json := do
       | .error e => Json.mkObj [("err", e.name), ("got", Json.arr acc)]
   pure (go ws (BitReader.ofBytes bs) #[])
 
-def dispatch (op : String) (j : Json) : Except String Json :=
+def pureOp (st : State) (r : Except String Json) : Except String (State × Json) := do
+  pure (st, ← r)
+
+def dispatch (st : State) (op : String) (j : Json) : Except String (State × Json) :=
   match op with
-  | "codec.decode" => opCodecDecode j
-  | "codec.encode" => opCodecEncode j
-  | "codec.write" => opCodecWrite j
-  | "bits.req" => opBitsReq j
-  | "bits.table" => opBitsTable j
-  | "bits.read" => opBitsRead j
+  | "ty.def" => opTyDef st j
+  | "codec.decode" => pureOp st (opCodecDecode st j)
+  | "codec.decodeSeq" => pureOp st (opCodecDecodeSeq st j)
+  | "codec.encode" => pureOp st (opCodecEncode st j)
+  | "codec.write" => pureOp st (opCodecWrite st j)
+  | "codec.writeArgs" => pureOp st (opCodecWriteArgs j)
+  | "bits.req" => pureOp st (opBitsReq j)
+  | "bits.table" => pureOp st (opBitsTable j)
+  | "bits.read" => pureOp st (opBitsRead j)
   | _ => throw s!"unknown op {op}"
 
-def handleLine (line : String) : String :=
+def handleLine (st : State) (line : String) : State × String :=
   match Json.parse line with
-  | .error e => (Json.mkObj [("fatal", s!"parse: {e}")]).compress
+  | .error e => (st, (Json.mkObj [("fatal", s!"parse: {e}")]).compress)
   | .ok j =>
     match j.getObjValAs? String "op" with
-    | .error e => (Json.mkObj [("fatal", e)]).compress
+    | .error e => (st, (Json.mkObj [("fatal", e)]).compress)
     | .ok op =>
-      match dispatch op j with
-      | .ok r => r.compress
-      | .error e => (Json.mkObj [("fatal", e)]).compress
+      match dispatch st op j with
+      | .ok (st', r) => (st', r.compress)
+      | .error e => (st, (Json.mkObj [("fatal", e)]).compress)
 
-partial def loop (hIn hOut : IO.FS.Stream) : IO Unit := do
+partial def loop (hIn hOut : IO.FS.Stream) (st : State) : IO Unit := do
   let line ← hIn.getLine
   if line.isEmpty then return ()
   let t := line.trimAscii.toString
-  if t.isEmpty then loop hIn hOut
+  if t.isEmpty then loop hIn hOut st
   else
-    hOut.putStrLn (handleLine t)
-    loop hIn hOut
+    let (st', out) := handleLine st t
+    hOut.putStrLn out
+    loop hIn hOut st'
 
 end Driver
 
 def main : IO Unit := do
   let hIn ← IO.getStdin
   let hOut ← IO.getStdout
-  Driver.loop hIn hOut
+  Driver.loop hIn hOut {}
   hOut.flush
